@@ -29,7 +29,7 @@ type batchPlan struct {
 }
 
 func (b *sb) batch(p batchPlan) (int, []string) {
-	prepStyle := map[string]string{"results": "batch", "any-slice": "any", "ints": "any", "strs": "res", "named": "any", "single": "any", "nil": "batch", "tok-slice": "res"}[p.shape]
+	prepStyle := map[string]string{"results+err": "batch", "results": "batch", "any-slice": "any", "ints": "any", "strs": "res", "named": "any", "single": "any", "nil": "batch", "tok-slice": "res"}[p.shape]
 	x := b.add(NodeDef{Kind: "batch", Impl: p.impl, Retry: retry(p.N, p.w), Fb: p.fb, Prep: prepStyle, Exec: p.exec,
 		Post: "batch", Conc: p.conc, Stop: p.stop, ExplicitCfg: p.n%2 == 0})
 	var toks []Val
@@ -47,6 +47,18 @@ func (b *sb) batch(p batchPlan) (int, []string) {
 		l := []Val{}
 		for _, t := range toks {
 			l = append(l, vRes(t))
+		}
+		pv = vSl(true, "", l)
+	case "results+err":
+		// prep hands over Results of which the second is an error Result: still an item to process
+		mk("")
+		l := []Val{}
+		for i, t := range toks {
+			if i == 1 {
+				l = append(l, vErrRes(b.errID()))
+			} else {
+				l = append(l, vRes(t))
+			}
 		}
 		pv = vSl(true, "", l)
 	case "any-slice":
@@ -458,6 +470,47 @@ func genBatch(r *rng, tier, prop string, st *stats) []taggedScen {
 				p.items[k%n] = itemPlan{outs: outs, cancelAt: -1, fbOK: true, sameErr: true}
 				ts := p.scen()
 				ts.tags = append(ts.tags, "same_error_on_consecutive_attempts")
+				out = append(out, ts)
+			}
+		}
+	}
+	// F7: items that are error Results; retry waits while the other workers are busy; budgets below one
+	for _, c := range []int{0, 2} {
+		for _, N := range []int{1, 2} {
+			k := next()
+			p := batchPlan{n: 3, conc: c, N: N, fb: []string{"default", "user"}[k%2], exec: "res", shape: "results+err", impl: impls[k%3], postAct: 5}
+			ts := p.scen()
+			ts.tags = append(ts.tags, "item_is_error_result")
+			out = append(out, ts)
+		}
+	}
+	for _, c := range []int{1, 2} {
+		for _, stop := range []bool{false, true} {
+			k := next()
+			n := c + 3
+			p := batchPlan{n: n, conc: c, N: 3, w: 1, stop: stop, fb: "default", exec: []string{"res", "any"}[k%2], shape: "results", impl: impls[k%3], postAct: 5}
+			p.items = make([]itemPlan, n)
+			for i := range p.items {
+				p.items[i] = itemPlan{cancelAt: -1, fbOK: true}
+			}
+			p.items[0] = itemPlan{outs: []bool{false, false, true}, cancelAt: -1, fbOK: true}
+			ts := p.scen()
+			ts.tags = append(ts.tags, "retry_wait_with_busy_workers")
+			out = append(out, ts)
+		}
+	}
+	for _, N := range []int{0, -1} {
+		for _, c := range []int{0, 2} {
+			for _, stop := range []bool{false, true} {
+				k := next()
+				p := batchPlan{n: 3, conc: c, N: N, stop: stop, fb: []string{"default", "user"}[k%2], exec: []string{"res", "any"}[k%2], shape: "results", impl: impls[k%3], postAct: 5}
+				p.items = make([]itemPlan, 3)
+				for i := range p.items {
+					p.items[i] = itemPlan{cancelAt: -1, fbOK: true}
+				}
+				p.items[k%3] = itemPlan{outs: []bool{false, false}, cancelAt: -1, fbOK: k%2 == 0}
+				ts := p.scen()
+				ts.tags = append(ts.tags, fmt.Sprintf("budget=%d", N))
 				out = append(out, ts)
 			}
 		}
